@@ -9,6 +9,7 @@ package main
 
 import (
 	"fmt"
+	"sort"
 	"time"
 
 	"verif/engine"
@@ -49,6 +50,9 @@ func catalogue(tier string) []cfg {
 			}
 			if tier == "quick" && (fam == "p63" || fam == "mixed") {
 				top = 6 // ... and on every chain for the two families with the largest points
+			}
+			if ch.Name == "mid" && fam == "mixed" {
+				top = 7 // one step beyond the property's N <= 6
 			}
 			if tier == "thorough" && (ch.Name == "mid" || ch.Name == "tiny") {
 				top = 7
@@ -93,7 +97,11 @@ func catalogue(tier string) []cfg {
 
 func scenarios(tier string) []engine.Scenario {
 	var out []engine.Scenario
-	for _, k := range catalogue(tier) {
+	cat := catalogue(tier)
+	// cheapest first (the number of ordered active lists grows like N!/(N-t)!): when the internal deadline strikes
+	// on a loaded machine, depth is lost, not breadth
+	sort.SliceStable(cat, func(i, j int) bool { return cat[i].n*10+cat[i].t < cat[j].n*10+cat[j].t })
+	for _, k := range cat {
 		k := k
 		nm := k.name()
 		var fn func(c *engine.Chooser)
@@ -124,7 +132,7 @@ func main() {
 		Rule: "One scenario per (kind, chain, public-point family, secret kind, N, t), all 1<=t<=N<=5 (quick) / 6 (thorough). combine: every ordered list of exactly t distinct active parties (sum over t of N!/(N-t)! leaves) x 3 listing orders of the points given to NewCombiner, " +
 			"every ordered list of fewer than t parties (must be refused with an error), and every list of t+1 parties (superset: outcome recorded, not judged). Each leaf: every active party's GenAdditiveShare is compared residue by residue over QP with lambda_i * (sum_j f_j(x_i)) computed with math/big (Horner + ModInverse), " +
 			"their sum with the sum of all N secret keys, and the t parties then decrypt collectively (KeySwitch to the zero key) a ciphertext under the ideal secret, compared with the N-party run. " +
-			"N = 7 on two chains and N = 8 on one family in thorough (beyond the property's N <= 6). combine leaves also vary the Combiner history (fresh / already served the reversed list / another subset); every other party's Thresholdizer already served another sharing; a third of the configurations use coefficient-domain parameters; chains include a conjugate-invariant ring and one without P;  The t parties also generate a collective public key with their additive shares, which must be a key of the ideal secret. " +
+			"N = 7 on one family in quick, on two chains and N = 8 on one family in thorough (beyond the property's N <= 6). combine leaves also vary the Combiner history (fresh / already served the reversed list / another subset); every other party's Thresholdizer already served another sharing; a third of the configurations use coefficient-domain parameters; chains include a conjugate-invariant ring and one without P;  The t parties also generate a collective public key with their additive shares, which must be a key of the ideal secret. " +
 			"setup: merge lattice (all orders and tree shapes, N<=4, 8 variants per merge incl. WriteTo/ReadFrom over fragmenting transports, <=1 non-plain quick / <=2 thorough) of the N Shamir shares a receiver gets, for every receiver, against the reference evaluation of the senders' polynomials. collide: points colliding / zero modulo a prime, only required not to panic.",
 		Assumptions: []string{
 			"public points are pairwise distinct and non-zero modulo every prime q_i and p_j of the parameters (Shamir's precondition in each field Z_q); candidates that violate it are walked upwards until they satisfy it",
